@@ -76,7 +76,7 @@ Boundaries(pel) == [k \in 1..(Len(pel.secs) + 1) |-> SecStart(pel, k)]
 BitOn(w, m) == (w \div m) % 2 = 1
 FruOK(f) == /\ (Len(f.pn) = 8) = (BitOn(f.flags, 8) \/ BitOn(f.flags, 2))
             /\ Len(f.pn) \in {0, 8}
-            /\ ~(BitOn(f.flags, 8) /\ BitOn(f.flags, 2))
+            \* (both bits may be set: the ONE 8-byte field is then part number and procedure id at once)
             /\ (Len(f.ccin) = 4) = BitOn(f.flags, 4) /\ Len(f.ccin) \in {0, 4}
             /\ (Len(f.sn) = 12) = BitOn(f.flags, 1) /\ Len(f.sn) \in {0, 12}
 CalloutOK(c) == /\ FruOK(c.fru)
